@@ -9,10 +9,10 @@ E3 = "stateless exhaustive reply/answer-tree enumeration of the real code agains
 
 CHECKS = {
  "C01": dict(engine="E1 enum", sec="4/C01", technique=E1,
-   text="Every frame of the enumerated product (all 65536 addresses x all 256 types x {empty, 1-byte} data; every length 1..255 x every position x every byte value; boundary lengths) is encoded by the real encoder, compared byte-for-byte with an arithmetic reference encoder, checked for zero-sum/upper-case/CRLF shape, decoded from both encodings and compared with the original; Data::try_new is tried for every length 0..300 and beyond; all ordered pairs and triples of frames built to collide on length/address/type/byte sum are encoded and decoded in sequence on a fresh thread (no state may carry over between calls). Exhaustive over that stated domain, which is what a round-trip claim over 'all frames' needs because the codec does not branch on data values.",
+   text="Every frame of the enumerated product (all 65536 addresses x all 256 types x {empty, 1-byte} data; every length 1..255 x every position x every byte value; boundary lengths) is encoded by the real encoder, compared byte-for-byte with an arithmetic reference encoder, checked for zero-sum/upper-case/CRLF shape, decoded from both encodings and compared with the original; Data::try_new is tried for every length 0..300 and beyond; every infallible conversion into Data that exists on the tree (probed for static arrays of 5..65536 bytes, slices, Vec, Box, Cow) must refuse or never yield more than 255 bytes; all ordered pairs and triples of frames built to collide on length/address/type/byte sum are encoded and decoded in sequence on a fresh thread (no state may carry over between calls). Exhaustive over that stated domain, which is what a round-trip claim over 'all frames' needs because the codec does not branch on data values.",
    note="Trusts the 25-line arithmetic reference encoder; joint variation of several data bytes only through two backgrounds."),
  "C02": dict(engine="E1 enum", sec="4/C02", technique="exhaustive single-fault enumeration over the wire string of every base frame, decided on the real decoder",
-   text="For every base frame (10 addresses x 10 types x data blocks of 0..3, 16 and 64/128/255 bytes, plus constructed frames that embed a complete inner frame) and both encodings, EVERY single substitution (all 255 other byte values at every position), deletion, duplication, unequal adjacent transposition and proper prefix, and every wrong length-field and wrong checksum value, is decoded by the real decoder; the result must be an error or exactly the original frame. The fault space of one frame is finite, so it is enumerated completely rather than sampled.",
+   text="For every base frame (10 addresses x 10 types x data blocks of 0..3, 16 and 64/128/255 bytes, plus constructed frames that embed a complete inner frame) and both encodings, EVERY single substitution (all 255 other byte values at every position), deletion, duplication, unequal adjacent transposition and proper prefix, and every wrong length-field and wrong checksum value, is decoded by the real decoder; the result must be an error or exactly the original frame; prefixes, deletions and data-field substitutions are also decoded after earlier decodes on the same thread (the frame itself and longer frames; a different valid frame with the same length, header and checksum). The fault space of one frame is finite, so it is enumerated completely rather than sampled.",
    note="Base-frame set is finite and listed in the evidence; soundness of 'Ok(original)' exceptions argued in DESIGN.md."),
  "C03": dict(engine="E1 enum", sec="4/C03", technique="bounded-exhaustive string enumeration (all strings up to length L; all strings within edit distance k of valid bases) compared with an independent parser",
    text="All strings over the 28-symbol structural alphabet up to length 5 (quick) / 6 (thorough), every string within edit distance 1-2 (3 on the shortest bases) of ~75 valid and near-valid bases, every position x all 256 byte values on long bases, frame-shaped strings whose digit slots hold multi-byte UTF-8 characters, and all pairs/triples of representative strings decoded in sequence on a fresh thread, are decoded by the real decoder and by a hand-written index-arithmetic reference parser; class, reported fields, accepted frame and re-encoding must agree and nothing may panic.",
@@ -45,7 +45,7 @@ CHECKS.update({
    note="I2 deliberately covers only the context-free strict points; admissibility of hello/query replies is C10's business."),
 
  "C06": dict(engine="E1 enum + E2 bfs", sec="4/C06", technique="bounded-exhaustive enumeration of single operations plus explicit-state closure over all operation sequences on tiny pages, against a Vec<bool> grid model",
-   text="For every size of an exhaustive box (incl. 0 and heights not a multiple of 8), the real sign sizes and 33x33, and 5 kinds of start page (new; borrowed bytes with non-standard header/padding and 00/FF/fill data; owned bytes): every in-bounds set/clear, set_all true/false and every listed out-of-bounds coordinate (incl. y inside the column's last byte) is executed on the real Page and judged on exactly the observables the statement lists. All sequences of operations are covered by a breadth-first closure to the fixed point (all 2^n pixel states) on tiny pages in lock-step with a boolean grid.",
+   text="For every size of an exhaustive box (incl. 0 and heights not a multiple of 8), the real sign sizes, 33x33 and tall/wide pages beyond 2^8 and 2^11 rows or columns, and 5 kinds of start page (new; borrowed bytes with non-standard header/padding and 00/FF/fill data; owned bytes): every in-bounds set/clear, set_all true/false and every listed out-of-bounds coordinate (incl. y inside the column's last byte) is executed on the real Page and judged on exactly the observables the statement lists. All sequences of operations are covered by a breadth-first closure to the fixed point (all 2^n pixel states) on tiny pages in lock-step with a boolean grid.",
    note="Header bytes 1..3 and unused high bits are recorded, not judged; closure only on pages up to 18 pixels."),
  "C07": dict(engine="E1 enum", sec="4/C07", technique=E1,
    text="For every (id,width,height) of the boxes and the real/large sizes: Page::new bytes against the layout formula; every pixel set (twice) / read / cleared (twice) on a blank page, and cleared / set again on a page with every pixel on, must change exactly bit y%8 of byte 4+x*ceil(h/8)+y/8 (so the pixel-to-bit map is checked injective pixel by pixel, against both backgrounds); sizes include heights just above 2^24 and 2^25; from_bytes for every candidate length around the padded size (owned and borrowed) and over the page's own bytes; the pixel map is also checked on pages over borrowed bytes.",
@@ -57,7 +57,7 @@ CHECKS.update({
    text="Every message of a 326-message list (all kinds, every data length 0..=255, boundary parameters, unknown frames that share the type byte of reply-expecting messages) x every reply line (all 13 reports, 6 acks, other kinds incl. 254/255-byte lines, 8 malformed shapes, empty, timeout) followed by a sentinel line, plus a fault at every write and read call index, plus failure-then-clean sequences on the same bus, is sent through one real SerialSignBus; bytes written (== Frame::from(message).to_bytes_with_newline()), read calls, input position and the returned value (== Frame::from_bytes + Message::from of the line; an undecodable line must give an error) are judged; the codec itself is taken as given (C01-C05 decide it).",
    note="Needs the sleep seam only to avoid real waiting; reply alphabet finite and listed."),
  "C18": dict(engine="E3 tree + real clock", sec="4/C18", technique="exhaustive enumeration of ordered message pairs x reply kinds on a virtual clock; candidates confirmed on the real clock; real-clock pass over all kinds",
-   text="Every ordered pair of 47 message kinds x every combination of 25 reply kinds (incl. echoed controller frames) for both messages is run through one real SerialSignBus with pauses captured by the sleep seam; the event log must show >= 30 ms of pause between a data chunk's last port write and the next message's first port write, >= 100 ms between reading an in-progress report and returning, and < 30 ms otherwise. A candidate violation is reported only if a real-clock measurement agrees (so a bypassed seam cannot raise an alarm); a real-clock pass measures every kind once (lower bounds; minimum over 5 repetitions for unpaced exchanges).",
+   text="Every ordered pair of 47 message kinds x every combination of 25 reply kinds (incl. echoed controller frames) for both messages is run through one real SerialSignBus with pauses captured by the sleep seam; the event log must show >= 30 ms of pause between a data chunk's last port write and the next message's first port write, >= 100 ms between reading an in-progress report and returning, and < 30 ms otherwise. A candidate violation is reported only if a real-clock measurement agrees (so a bypassed seam cannot raise an alarm); a real-clock pass measures every kind once (lower bounds; minimum over 5 repetitions for unpaced exchanges), and a slow-port pass repeats the lower bounds through a port whose every read/write call blocks for 4 ms of real time, measured from the end of the last write/read.",
    note="Time itself is measured, not enumerated; trusts the two-line seam, cross-checked by the real-clock pass."),
  "C19": dict(engine="E1 enum", sec="4/C19", technique=E1,
    text="All 11 types (block fields vs dimensions; a real VirtualSign configured with the block stores exactly a page of the type's size, and whatever it holds after a page of a neighbouring size has the type's dimensions), all 121 ordered pairs of types (failed attempt with A, retry with B), all 65536 (family,id) pairs with the other 14 bytes varied, every length 0..=600 and lengths = 16 mod 256 / mod 65536, and every single-byte variation of every real block are decoded and compared with a literal table.",
